@@ -36,7 +36,7 @@ import (
 type h struct{ st *state }
 
 func (h) Rule() string {
-	return "cases are (a) in-memory indexes of 0..40 (and 1100..1400) documents in 1-3 segments with deletions, keyword/numeric/date/text fields drawn from 2-7 values each (heavy ties) and missing with probability 1/4, queried by match-all / term / boolean queries, (a') 2-3 such indexes of different sizes searched together through bluge.MultiSearch, and (b) synthetic match streams of 0..2100 matches with 1-3 arbitrary byte-string sort values (empty, 0x00, 0xff.., ties, missing); per reference list: (n, from) over {0,1,9,10,11,count-1,count,count+5}^2, sort orders of 1-3 keys mixing _score/text/numeric/date with every asc/desc and missing first/last combination, built fresh (custom or string form) or left at the request's default, from a SortOrder value shared between requests, or inside one re-used request; after/before chains of page sizes {1,2,3,5,9,10,11,count,count+1} in all three re-use modes. A case is an executed search; it is non-trivial when the reference list has at least 2 matches and n > 0; distinct by operation line"
+	return "cases are (a) in-memory indexes of 0..40 (and 1100..1400) documents in 1-3 segments with deletions, keyword/numeric/date/text fields drawn from 2-7 values each (heavy ties) and missing with probability 1/4, queried by match-all / term / boolean queries, (a') 2-3 such indexes of different sizes searched together through bluge.MultiSearch, and (b) synthetic match streams of 0..2100 matches with 1-3 arbitrary byte-string sort values (0x00.., 0xff.., ties, missing; every present value strictly between the replacements lowTerm and highTerm), (c) two fixed probes with present values at or beyond those replacements (empty, 0x00, 10 and 11 x 0xff); per reference list: (n, from) over {0,1,9,10,11,count-1,count,count+5}^2, sort orders of 1-3 keys mixing _score/text/numeric/date with every asc/desc and missing first/last combination, built fresh (custom or string form) or left at the request's default, from a SortOrder value shared between requests, or inside one re-used request; after/before chains of page sizes {1,2,3,5,9,10,11,count,count+1} in all three re-use modes. A case is an executed search; it is non-trivial when the reference list has at least 2 matches and n > 0; distinct by operation line"
 }
 
 // ---------------------------------------------------------------------------------- sort specs
@@ -630,6 +630,10 @@ func (s *state) buildIndex(corpus string, idx int) string {
 						name, val := f[:i], f[i+1:]
 						d.fields[name] = val
 						switch name {
+						case "kx": // keyword field k with an arbitrary byte value, given in hex ("-" = the empty value)
+							d.fields["k"] = string(unhex(val))
+							delete(d.fields, "kx")
+							doc.AddField(bluge.NewKeywordFieldBytes("k", unhex(val)).Sortable())
 						case "k", "k2", "u":
 							doc.AddField(bluge.NewKeywordField(name, val).Sortable())
 						case "n":
@@ -1054,9 +1058,11 @@ func r2perm(r *hlib.Rand, n int) []int {
 	return p
 }
 
-var stubVals = [][]byte{{}, {0}, {0, 0}, {1}, {'a'}, {'a', 'b'}, {'b'}, {0x7f}, {0x80}, {0xff},
-	{0xff, 0xff, 0xff, 0xff, 0xff, 0xff, 0xff, 0xff, 0xff}, {0xff, 0xff, 0xff, 0xff, 0xff, 0xff, 0xff, 0xff, 0xff, 0xff},
-	{0xff, 0xff, 0xff, 0xff, 0xff, 0xff, 0xff, 0xff, 0xff, 0xff, 0xff}, {0xff, 0xff, 0xff, 0xff, 0xff, 0xff, 0xff, 0xff, 0xff, 0xff, 0}}
+// every random present value lies strictly between lowTerm {0x00} and highTerm 10x0xff (keyInRange): values at or
+// beyond the two replacements for a missing value occur in the fixed probe cases only (see Gen)
+var stubVals = [][]byte{{0, 0}, {0, 1}, {1}, {'a'}, {'a', 'b'}, {'b'}, {0x7f}, {0x80}, {0xff}, {0xff, 0},
+	{0xff, 0xff, 0xff, 0xff, 0xff, 0xff, 0xff, 0xff, 0xff}, {0xff, 0xff, 0xff, 0xff, 0xff, 0xff, 0xff, 0xff, 0xff, 0xfe},
+	{0xff, 0xff, 0xff, 0xff, 0xff, 0xff, 0xff, 0xff, 0xff, 0xfe, 0xff, 0xff}}
 
 func (g *genT) stubRaw(count, nkeys int, unique bool, spread int) string {
 	r := g.r
@@ -1076,9 +1082,12 @@ func (g *genT) stubRaw(count, nkeys int, unique bool, spread int) string {
 			case r.Chance(70):
 				vs[x] = "t" + hlib.Hex(stubVals[r.Intn(spread)%len(stubVals)])
 			default:
-				b := make([]byte, r.Intn(4))
+				b := make([]byte, 1+r.Intn(3))
 				for j := range b {
 					b[j] = byte(r.Intn(256))
+				}
+				if len(b) == 1 && b[0] == 0 {
+					b[0] = 1 // {0x00} is lowTerm itself
 				}
 				vs[x] = "t" + hlib.Hex(b)
 			}
@@ -1106,6 +1115,30 @@ func (h) Gen(r *hlib.Rand, tier string, scale int, emit func(string)) {
 	emit("run qp before=64")
 	emit("run qp after=61")
 	emit("run qp from=1")
+	// ---- fixed probe: PRESENT values at or beyond the replacements for a missing value — the empty keyword,
+	// {0x00} (= lowTerm), 10 x 0xff (= highTerm), 11 x 0xff — next to documents that lack the field and ordinary
+	// values; all four asc/desc x missing first/last orders; judged by the property-level order (missing block
+	// strictly first / last, present values in byte order), reference = AllMatches
+	ff10, ff11 := strings.Repeat("ff", 10), strings.Repeat("ff", 11)
+	// (real index: the empty keyword and {0x00}; a keyword holding 0xff bytes does not come back from ice's doc values
+	// as written — 0xff is their term separator, 11 x 0xff is read back as the empty value — so values >= highTerm
+	// reach a sort order only through a custom TextValueSource: the synthetic probe below)
+	emit("case mprobe index d0/kx=62;d1;d2/kx=-;d3/kx=7a;d4/kx=61;d5|d6/kx=-;d7/kx=0001;d8/kx=00;d9;d10/kx=6162;d11/kx=63")
+	for i, sp := range []string{"k:a:f", "k:a:l", "k:d:f", "k:d:l"} {
+		R := fmt.Sprintf("P%d", i)
+		emit(fmt.Sprintf("ref %s idx q=all s=%s", R, sp))
+		for _, nf := range [][2]int{{17, 0}, {3, 0}, {4, 2}, {5, 7}, {11, 1}} {
+			emit(fmt.Sprintf("topn %s n=%d from=%d so=new", R, nf[0], nf[1]))
+		}
+	}
+	emit("case sprobe")
+	for i, sp := range []string{"c0:a:f", "c0:a:l", "c0:d:f", "c0:d:l"} {
+		R := fmt.Sprintf("S%d", i)
+		emit(fmt.Sprintf("ref %s stub s=%s raw=0:t62;1:~;2:t-;3:t%s;4:t61;5:~;6:t00;7:t%s;8:t-;9:t%s00;10:t63", R, sp, ff11, ff10, ff10))
+		for _, nf := range [][2]int{{16, 0}, {3, 0}, {4, 2}, {11, 1}} {
+			emit(fmt.Sprintf("topn %s n=%d from=%d so=new", R, nf[0], nf[1]))
+		}
+	}
 	idxCounts := []int{0, 1, 2, 5, 9, 10, 11, 12, 15, 23, 40}
 	srcs := []string{"score", "k", "k2", "u", "n", "d"}
 	queries := []string{"all", "all", "term:t:x", "bool:x:y", "term:k:a"}
